@@ -75,13 +75,19 @@ def run(cmd, cwd=None, timeout=None, env=None, stdin=None, check=False):
 
 # ----------------------------------------------------------------------------- Go harness
 
-def prepare_harness_module():
+def prepare_harness_module(dst=None):
+    """Copies the harness sources to dst (default: in place) and points the replace directive at the repository."""
     repo = repo_dir()
-    tmpl = open(os.path.join(HARNESS, "go.mod.tmpl")).read().replace("@REPO@", repo)
-    gm = os.path.join(HARNESS, "go.mod")
-    if not os.path.exists(gm) or "=> %s\n" % repo not in open(gm).read():
-        open(gm, "w").write(tmpl)
-    shutil.copyfile(os.path.join(repo, "go.sum"), os.path.join(HARNESS, "go.sum"))
+    src = HARNESS
+    if dst is not None:
+        shutil.rmtree(dst, ignore_errors=True)
+        shutil.copytree(src, dst, ignore=shutil.ignore_patterns("go.mod", "go.sum"))
+    else:
+        dst = src
+    tmpl = open(os.path.join(src, "go.mod.tmpl")).read().replace("@REPO@", repo)
+    open(os.path.join(dst, "go.mod"), "w").write(tmpl)
+    shutil.copyfile(os.path.join(repo, "go.sum"), os.path.join(dst, "go.sum"))
+    return dst
 
 
 def build_vh(ctx, race=False):
@@ -90,14 +96,14 @@ def build_vh(ctx, race=False):
     out = os.path.join(ctx.work, "bin", key)
     if os.path.exists(out):
         return out
-    prepare_harness_module()
+    hdir = prepare_harness_module(os.path.join(ctx.work, "harness-src"))
     os.makedirs(os.path.dirname(out), exist_ok=True)
     cmd = ["go", "build", "-tags", "verif"]
     if race:
         cmd.append("-race")
     cmd += ["-o", out, "./cmd/vh"]
     t = time.time()
-    p = run(cmd, cwd=HARNESS, timeout=1500)
+    p = run(cmd, cwd=hdir, timeout=1500)
     if p.returncode != 0:
         raise Infra("go build of the harness against %s failed:\n%s" % (repo_dir(), p.stderr[-4000:]))
     log("[build] %s in %.1fs (repo=%s)" % (key, time.time() - t, repo_dir()))
